@@ -2,6 +2,7 @@ import Driver.Common
 import RxModel.PipeHeap
 import RxModel.PipeProducers
 import RxModel.PipeSubscribe
+import RxModel.PipeTramp
 open Lean Drv
 
 namespace DrvPipe
@@ -71,6 +72,29 @@ def handle (op : String) (j : Json) : Except String Json := do
       | .error e => Json.arr #[.str "E", .str e]
       | .completed => Json.arr #[.str "C"]
     pure (Json.mkObj [("out", Json.arr (out.map enc).toArray), ("pulls", .num (JsonNumber.fromNat pulls))])
+  | "tramp_merge" =>
+    -- producers: [[kind, n], ...]; k: absent = never, -1 = right after subscribe, n = during notification n
+    let prods ← (← getArr j "producers").mapM fun pj => do
+      match pj with
+      | .arr a =>
+        match a.toList with
+        | [.str kind, n] =>
+          let n ← natOf n
+          match kind with
+          | "of" => pure (Tramp.ofP n) | "iter" => pure (Tramp.iterP n)
+          | "range" => pure (Tramp.rangeP n) | "gen" => pure (Tramp.genP n)
+          | _ => throw s!"bad producer {kind}"
+        | _ => throw "bad producer"
+      | _ => throw "bad producer"
+    let w : Tramp.When := match (j.getObjValAs? Int "k").toOption with
+      | none => .never
+      | some i => if i < 0 then .atStart else .during i.toNat
+    let enc : Tramp.Ev → Json
+      | .cb p t => Json.arr #[.str "cb", .num (JsonNumber.fromNat p), .num (JsonNumber.fromNat t)]
+      | .next p i => Json.arr #[.str "N", .num (JsonNumber.fromNat p), .num (JsonNumber.fromNat i)]
+      | .completed => Json.arr #[.str "C"]
+    let fin := Tramp.final w prods
+    pure (Json.mkObj [("evs", Json.arr ((fin.evs.map enc).toArray)), ("queue_left", .num (JsonNumber.fromNat fin.queue.length))])
   | _ => throw s!"unknown op {op}"
 
 end DrvPipe
